@@ -165,7 +165,7 @@ def match_known(known, prop, full_name, labels):
 
 THOROUGH_ENV = {
     "C01": {"C01_TREES": "20000"}, "C03": {"C03_PROGRAMS": "30000"}, "C05": {"C05_DEPTH": "5", "C05_BUDGET": "40000"},
-    "C09": {"C09_PROGRAMS": "1500"}, "C10": {"C10_PROGRAMS": "100000"}, "C12": {"C12_MAXLEN": "6"}, "C17": {"C17_MAXLEN": "7"},
+    "C09": {"C09_PROGRAMS": "1500"}, "C10": {"C10_PROGRAMS": "100000"}, "C12": {"C12_MAXLEN": "6", "C12_RANDOM": "200000"}, "C17": {"C17_MAXLEN": "7"},
     "C19": {"C19_TREES": "100000"}, "C02": {"SCOPE_LEVEL": "3"}, "C06": {"SCOPE_LEVEL": "3"}, "C07": {"SCOPE_LEVEL": "3"},
     "C08": {"SCOPE_LEVEL": "3"},
 }
